@@ -24,8 +24,8 @@ func init() {
 		},
 		Real:     []string{"fp.Promise / fp.Future (future.go)", "internal/atomic", "promise.New"},
 		Stub:     []string{"Go scheduler at atomic steps (seeded scheduler)", "goroutine creation of goExecutor (VerifSpawn)", "user executors", "user callbacks"},
-		Quick:    Budget{Runs: 60000, Wall: 40 * time.Second},
-		Thorough: Budget{Runs: 6000000, Wall: 20 * time.Minute},
+		Quick:    Budget{Runs: 600000, Wall: 40 * time.Second},
+		Thorough: Budget{Runs: 60000000, Wall: 20 * time.Minute},
 		Exec:     execC05,
 	})
 }
@@ -349,7 +349,10 @@ func c05Zero(r *sim.Run) {
 		{"Future.OnSuccess", func() string { f.OnSuccess(func(int) { ran++ }); return "false" }},
 		{"Future.OnFailure", func() string { f.OnFailure(func(error) { ran++ }); return "false" }},
 		{"Future.Foreach", func() string { f.Foreach(func(int) { ran++ }); return "false" }},
-		{"Promise.Future.OnComplete", func() string { p.Future().OnComplete(func(fp.Try[int]) { ran++ }, inlineExec{new(int)}); return "false" }},
+		{"Promise.Future.OnComplete", func() string {
+			p.Future().OnComplete(func(fp.Try[int]) { ran++ }, inlineExec{new(int)})
+			return "false"
+		}},
 		{"Future.String", func() string { _ = f.String(); return "false" }},
 	}
 	// seeded order and subset
